@@ -1,6 +1,7 @@
 package harness
 
 import (
+	"github.com/jmsadair/raft"
 	"github.com/jmsadair/raft/xsim/simrt"
 )
 
@@ -48,25 +49,47 @@ func (c *Cluster) scenarioLaggingVoter(untilNs int64) {
 		}
 		c.Rec.probe("scenario-lagging-voter-rounds")
 		c.execStep(Step{Kind: StepPartition, Nodes: []string{z.ID}})
+		// The generated client workload may be used up by now: a few writes of the scenario's
+		// own make sure that Z really falls behind.
+		for k := rng.Range(1, 5); k > 0 && l0.Inc != nil; k-- {
+			c.submit(0, l0.Inc, raft.Replicated, int64(cfg.OpTimeoutMs))
+			c.sleepMs(rng.Range(1, int64(cfg.HeartbeatMs)))
+		}
 		c.sleepMs(rng.Range(2*E, 5*E))
 		if c.healing {
 			return
 		}
-		// Leadership changes while Z is away.
+		// A new term of leadership begins while Z is away (the same node may win again: what
+		// matters is that the new leader's next index for Z is past the end of Z's log). With
+		// three voters that needs the old leader back, so a crashed one is restarted.
+		oldTerm := uint64(0)
+		for _, n := range c.upNodes() {
+			if n.Inc.haveStatus && n.Inc.lastStatus.Term > oldTerm {
+				oldTerm = n.Inc.lastStatus.Term
+			}
+		}
 		if cur := c.uniqueLeader(); cur != nil && cur != z {
 			// A stalled process is a message delay beyond (election timeout - lease), which the
 			// lease property excludes; the lease profile therefore only crashes.
 			if cfg.Profile == ProfLease || rng.Chance(0.5) {
 				c.Stats.CrashNow++
 				c.crashNode(cur, "time")
+				c.sleepMs(rng.Range(E/2, 2*E))
+				if c.healing {
+					return
+				}
+				if cur.Inc == nil {
+					c.Stats.Restarts++
+					c.startNode(cur, nil)
+				}
 			} else {
 				c.execStep(Step{Kind: StepStall, Node: cur.ID, A: rng.Range(2*E, 4*E)})
 			}
 		}
 		var l *Node
-		for i := 0; i < 40 && l == nil && c.Sim.Now() < untilNs; i++ {
+		for i := 0; i < 40 && l == nil && c.Sim.Now() < untilNs && !c.healing; i++ {
 			c.sleepMs(E / 4)
-			if cur := c.uniqueLeader(); cur != nil && cur != z && cur != l0 {
+			if cur := c.uniqueLeader(); cur != nil && cur != z && cur.Inc.lastStatus.Term > oldTerm {
 				l = cur
 			}
 		}
@@ -78,6 +101,39 @@ func (c *Cluster) scenarioLaggingVoter(untilNs int64) {
 			continue
 		}
 		c.Rec.probe("scenario-leadership-changed-while-voter-lagged")
+		c.scenZ, c.scenL, c.scenRejectAt = z.ID, l.ID, 0
+		// Clients of the scenario: reads of the profile's kind at L, writes at the others.
+		myRound := round + 1
+		c.scenRound = myRound
+		crng := simrt.NewRand(cfg.Seed+uint64(myRound), "scenario-clients")
+		c.Sim.GoProc(c.Sim.Harness, "scenario-clients", func() {
+			for k := 0; k < 150 && c.scenRound == myRound && c.Sim.Now() < untilNs && !c.healing; k++ {
+				c.sleepUs(crng.Range(500, 1000*int64(cfg.OpIntervalMs)+500))
+				if c.scenRound != myRound || c.healing {
+					return
+				}
+				if crng.Chance(0.5) {
+					if l.Inc != nil {
+						typ := raft.LeaseBasedReadOnly
+						if cfg.LeaseReadPm == 0 {
+							typ = raft.LinearizableReadOnly
+						}
+						c.submit(0, l.Inc, typ, int64(cfg.OpTimeoutMs))
+					}
+				} else {
+					var others []*Node
+					for _, n := range voters(l) {
+						if n.Inc != nil {
+							others = append(others, n)
+						}
+					}
+					if len(others) > 0 {
+						c.submit(0, others[crng.Intn(len(others))].Inc, raft.Replicated, int64(cfg.OpTimeoutMs))
+					}
+				}
+			}
+		})
+
 		xs := voters(l, z)
 		c.Net.healAll()
 		c.Stats.Heals++
@@ -108,8 +164,110 @@ func (c *Cluster) scenarioLaggingVoter(untilNs int64) {
 				c.sleepUs(rng.Range(2*int64(cfg.MaxDelayUs), 8*int64(cfg.MaxDelayUs)+int64(cfg.HeartbeatMs)*500))
 			}
 		}
+		c.scenZ, c.scenL = "", ""
+		c.scenRound = 0
 		if !c.healing {
 			c.execStep(Step{Kind: StepHeal})
 		}
+	}
+}
+
+// scenarioSlowQuorum: the leader's quorum consists of a member on a slow path (both directions
+// near the delay bound of the profile) and a member on a fast path that stops hearing the
+// leader; the remaining voters cannot talk to the leader (or to the slow member) at all and
+// campaign. The lease must still not outlive the promise of the fast member. Needs >= 4 voters.
+func (c *Cluster) scenarioSlowQuorum(untilNs int64) {
+	cfg := c.Cfg
+	rng := simrt.NewRand(cfg.Seed, "scenario-slow-quorum")
+	E := int64(cfg.ElectionMs)
+	for round := 0; round < 4 && c.Sim.Now() < untilNs && !c.healing; round++ {
+		c.sleepMs(rng.Range(2*E, 5*E))
+		if c.healing {
+			return
+		}
+		l := c.uniqueLeader()
+		if l == nil || !c.bootVoters[l.ID] {
+			continue
+		}
+		var fs []*Node
+		for _, n := range c.Nodes {
+			if c.bootVoters[n.ID] && n.Inc != nil && n != l {
+				fs = append(fs, n)
+			}
+		}
+		if len(fs) < 3 {
+			return
+		}
+		// Shuffle: W fast, then the slow members up to a bare quorum, the rest are cut off.
+		for i := len(fs) - 1; i > 0; i-- {
+			j := rng.Intn(i + 1)
+			fs[i], fs[j] = fs[j], fs[i]
+		}
+		quorum := (len(fs)+1)/2 + 1 // voters = len(fs)+1
+		w := fs[0]
+		slow := fs[1 : quorum-1]
+		rest := fs[quorum-1:]
+		c.Rec.probe("scenario-slow-quorum-rounds")
+		extra := int64(cfg.DelayBoundMs) * 2_000_000 // capped at the bound by the network
+		if extra == 0 {
+			extra = rng.Range(E/4, E) * 1_000_000
+		}
+		for _, v := range slow {
+			c.Net.setSlow(l.ID, v.ID, extra)
+			c.Net.setSlow(v.ID, l.ID, extra)
+			for _, x := range rest {
+				c.Net.block(v.ID, x.ID)
+				c.Net.block(x.ID, v.ID)
+			}
+		}
+		for _, x := range rest {
+			c.Net.block(l.ID, x.ID)
+			c.Net.block(x.ID, l.ID)
+		}
+		c.Stats.Partitions++
+		c.Stats.SlowLinks++
+		// The campaigning side needs an election timeout to get going; then W stops hearing L.
+		c.sleepMs(rng.Range(E, 3*E))
+		if c.healing {
+			return
+		}
+		c.Net.block(l.ID, w.ID)
+		if rng.Chance(0.3) {
+			c.Net.block(w.ID, l.ID)
+		}
+		myRound := round + 1
+		c.scenRound = myRound
+		crng := simrt.NewRand(cfg.Seed+uint64(myRound), "scenario-slow-quorum-clients")
+		c.Sim.GoProc(c.Sim.Harness, "scenario-clients", func() {
+			for k := 0; k < 200 && c.scenRound == myRound && c.Sim.Now() < untilNs && !c.healing; k++ {
+				c.sleepUs(crng.Range(500, 1000*int64(cfg.OpIntervalMs)+500))
+				if c.scenRound != myRound || c.healing {
+					return
+				}
+				if crng.Chance(0.5) {
+					if l.Inc != nil {
+						typ := raft.LeaseBasedReadOnly
+						if cfg.LeaseReadPm == 0 {
+							typ = raft.LinearizableReadOnly
+						}
+						c.submit(0, l.Inc, typ, int64(cfg.OpTimeoutMs))
+					}
+				} else {
+					t := rest[crng.Intn(len(rest))]
+					if crng.Chance(0.3) {
+						t = w
+					}
+					if t.Inc != nil {
+						c.submit(0, t.Inc, raft.Replicated, int64(cfg.OpTimeoutMs))
+					}
+				}
+			}
+		})
+		c.sleepMs(rng.Range(2*E, 4*E))
+		c.scenRound = 0
+		if c.healing {
+			return
+		}
+		c.execStep(Step{Kind: StepHeal})
 	}
 }
